@@ -4,6 +4,7 @@ Oracle: reference model = list of (prio, seq, task); see DESIGN.md C09.
 """
 
 import itertools
+import json
 
 from hypothesis import strategies as st
 
@@ -124,8 +125,64 @@ def observe(q, m, v, where):
             lambda: f'{where}: list(q)={got!r} model={exp!r}')
 
 
+def _tick():
+    pass
+
+
+class NamedQueue:
+    """The library's TaskQueue holding real task objects; the history and the
+    model name them 'a'..'d'. Results are translated back by identity (task
+    objects overload ==)."""
+
+    def __init__(self, objs):
+        self.q = TaskQueue()
+        self.objs = objs
+        self.names = {id(o): n for n, o in objs.items()}
+
+    def _out(self, x):
+        return (x[0], self.names[id(x[1])])
+
+    def add(self, p, t):
+        return self.q.add(p, self.objs[t])
+
+    def remove(self, t):
+        return self.q.remove(self.objs[t])
+
+    def pop(self):
+        return self._out(self.q.pop())
+
+    def peek(self, smallest):
+        return self._out(self.q.peek(smallest))
+
+    def empty(self):
+        return self.q.empty()
+
+    def clear(self):
+        return self.q.clear()
+
+    def __iter__(self):
+        return iter([self._out(x) for x in self.q])
+
+
+def task_objects(case):
+    """What the tasks of this history are (a function of the history): plain
+    strings, or what the clocks really queue - Function wrappers, here four
+    distinct wrappers of one and the same plain function, as
+    clock.sched(delta, f) makes one per call - or routines."""
+    import zlib
+    kind = zlib.crc32(json.dumps(case).encode()) % 3
+    if kind == 1:
+        from sc3.base.functions import Function
+        return 'function_tasks', {n: Function(_tick) for n in TASKS}
+    if kind == 2:
+        from sc3.base.stream import Routine
+        return 'routine_tasks', {n: Routine(_tick) for n in TASKS}
+    return 'string_tasks', {n: n for n in TASKS}
+
+
 def run_history(case, v):
-    q = TaskQueue()
+    kind_label, objs = task_objects(case)
+    q = NamedQueue(objs)
     m = Model()
     popped = []
     dirty = False   # a remove / re-add happened and has not yet been observed
@@ -213,6 +270,7 @@ def run_history(case, v):
         v.check(q.empty(), 'empty_disagrees', 'not empty after drain')
     if tie_in(case):
         labels.add('tie')
+    labels.add(kind_label)
     return {'nontrivial': nontrivial, 'labels': sorted(labels)}
 
 
